@@ -388,12 +388,16 @@ def check(P, R, tier):
     import tfmtdecode
     nt = tfmtdecode.run_parallel(R, P, "RF2-tfmt", every=(tier == "thorough"), jobs=12)
     R.floor("RF2-tfmt", "printed and re-parsed time texts", nt, 5000)
+    import dtfmtdecode
+    nd = dtfmtdecode.run_parallel(R, P, "RF2-dtfmt", jobs=12)
+    R.floor("RF2-dtfmt", "printed and re-parsed date-time texts", nd, 3000)
 
 
 LEVEL = ("Decides the case-by-case agreement of the separately written parser and printer switches for every specifier: a case on "
          "both sides, the same scratch field, padding read where padding is printed, accepted limits containing the printable "
          "range, digit-printer widths within the helper's capacity, and the 12-hour clock table folded over the 24 hours.  "
-         "On top of that dates (RF2-fmt, 16 formats) and times (RF2-tfmt, 10 formats incl. every hour / AM-PM pairing) are printed and parsed "
+         "On top of that dates (RF2-fmt, 16 formats), times (RF2-tfmt, 10 formats incl. every hour / AM-PM pairing) and date-times (RF2-dtfmt, 8 "
+         "formats incl. the format-less route and the epoch seconds %s on both sides of 1970 and of the 32-bit range) are printed and parsed "
          "back by folding the routines themselves on grids of days and of times.  "
          "Equality parse(format(x)) = x for all values and format strings is NOT decided: it also depends on the computed "
          "digits, on adjacent variable-width fields and on the calendar guess from the parsed field set.")
